@@ -709,7 +709,13 @@ def power(b, e):
         raise Undecided("0 ** negative")
     if len(b.t) == 1:
         (m, c), = b.t.items()
-        r = const_pow(c, e)
+        try:
+            r = const_pow(c, e)
+        except Undecided:
+            if c <= 0:
+                raise
+            # root of a large rational: an atom standing for the constant itself (relations handled by is_zero)
+            r = Poly({((pow_atom(Poly.const(c)), e),): F1})
         for g, x in m:
             if g < 0:
                 r = r * const_pow(Fraction(-g), x * e)
